@@ -66,4 +66,27 @@ def locate (m : Mapping) (a : String) : Loc :=
 def bodyAttrs (m : Mapping) (attrs : List String) : List String :=
   attrs.filter fun a => locate m a == .body
 
+/-! ### arrays outside the body
+How the elements of an array attribute travel under the attribute's key, as the generated encoders
+write them and the generated decoders read them (elements already formatted as strings):
+request query string — one `k=v` pair per element; request header — one header line per element
+(`req.Header.Add`); **response header — ONE value, the elements joined by `", "`**
+(`partial/header_conversion.go.tpl`), while the client reads one element per header value
+(`resp.Header[name]`) and never splits. -/
+
+inductive Dir where | request | response
+deriving DecidableEq, Repr
+
+/-- the values on the wire under the key -/
+def encodeElems (d : Dir) (l : Loc) (xs : List String) : List String :=
+  match d, l with
+  | .response, .header => [", ".intercalate xs]
+  | _, _ => xs
+
+/-- what the decoder of the other side makes of the values under the key: one element per value -/
+def decodeElems (_d : Dir) (_l : Loc) (vals : List String) : List String := vals
+
+/-- what arrives -/
+def deliverElems (d : Dir) (l : Loc) (xs : List String) : List String := decodeElems d l (encodeElems d l xs)
+
 end GoaVerif.Transport
